@@ -565,6 +565,9 @@ func (c *specCtx) specEq(a, b Val) *Term {
 		if same(x.Obj, y.Obj) && same(x.Off, y.Off) && same(x.Len, y.Len) {
 			return True
 		}
+		if eq, ok := itoaEq(x, y); ok {
+			return eq
+		}
 		h := c.heap(strHeap, HeapI)
 		i := c.e.fresh("i", IntS)
 		return And(Eq(x.Len, y.Len), Forall([]*Term{i}, nil,
@@ -597,11 +600,23 @@ func (c *specCtx) specEq(a, b Val) *Term {
 func (c *specCtx) evalBin(n *EBin) Val {
 	switch n.Op {
 	case "&&":
-		return VBool{And(c.evalBool(n.X), c.evalBool(n.Y))}
+		x := c.evalBool(n.X)
+		if x.IsFalse() { // short circuit: the right operand may be meaningless (callArg of a call that did not happen)
+			return VBool{False}
+		}
+		return VBool{And(x, c.evalBool(n.Y))}
 	case "||":
-		return VBool{Or(c.evalBool(n.X), c.evalBool(n.Y))}
+		x := c.evalBool(n.X)
+		if x.IsTrue() {
+			return VBool{True}
+		}
+		return VBool{Or(x, c.evalBool(n.Y))}
 	case "==>":
-		return VBool{Implies(c.evalBool(n.X), c.evalBool(n.Y))}
+		x := c.evalBool(n.X)
+		if x.IsFalse() {
+			return VBool{True}
+		}
+		return VBool{Implies(x, c.evalBool(n.Y))}
 	case "<==>":
 		return VBool{Eq(c.evalBool(n.X), c.evalBool(n.Y))}
 	case "==":
@@ -881,6 +896,31 @@ func (c *specCtx) evalCall(n *ECall) Val {
 		}
 		_ = ct
 		return v
+	case "payload": // scalar stored in an interface value (the dynamic value of an int32 boxed into interface{})
+		iv, ok := c.eval(n.Args[0]).(VIface)
+		if !ok {
+			c.fail("payload needs an interface value")
+		}
+		return VInt{iv.Data}
+	case "itoa": // the string strconv.Itoa(x)
+		return itoaString(c.evalInt(n.Args[0]))
+	case "callSeq": // callSeq(f, n): position of the n-th call of f in the sequence of calls made (-1: no such call)
+		name := n.Args[0].(*EIdent).Name
+		nth := c.evalInt(n.Args[1])
+		if !nth.IsConst() {
+			c.fail("callSeq needs a constant index")
+		}
+		k := 0
+		for i, cr := range c.st.calls {
+			if cr.target != name {
+				continue
+			}
+			if int64(k) == nth.N.Int64() {
+				return VInt{Num(int64(i))}
+			}
+			k++
+		}
+		return VInt{Num(-1)}
 	case "isErr": // err is some non-nil error
 		return VBool{Ne(c.eval(n.Args[0]).(VErr).Id, Zero)}
 	}
